@@ -11,19 +11,32 @@
 (*  lorentz : walk away from the centre of a Lorentzian one grid step at a time.            *)
 (*  units   : unit of the result for every assignment of units to the parameters.           *)
 (*                                                                                          *)
+(*  typed   : (hardening round) the polynomial again, now with element types attached to x  *)
+(*            and to every coefficient.  An evaluation step may be refused as "unsupported" *)
+(*            only when an integer-typed operand is involved (an in-place update cannot     *)
+(*            widen an integer accumulator; weakest reading, as for C07); whatever is        *)
+(*            returned is sum a_i x^i and no floating-point operand ends up in an integer   *)
+(*            accumulator.                                                                  *)
+(*  reuse   : (hardening round) the caller's parameter objects are evaluated again and       *)
+(*            again (any model kind, fwhm in between): an evaluation reads them and never   *)
+(*            writes them, so every evaluation of the same kind returns the same value.     *)
+(*                                                                                          *)
 (* Bug (negative controls): "no_clash_check" (composition never refused), "subset_ok"       *)
 (* (a call is accepted when no parameter is missing, unknown ones are ignored),             *)
-(* "no_shift" (Horner step forgets to multiply by x), "fwhm_sigma" (reported FWHM = scale).  *)
+(* "no_shift" (Horner step forgets to multiply by x), "fwhm_sigma" (reported FWHM = scale),  *)
+(* "narrow_accumulator" (the accumulator keeps its element type whatever is added to it),    *)
+(* "scale_in_place" (the pseudo-Voigt rescales the caller's scale object in place).          *)
 EXTENDS PeakModelsDefs, TLC
 
 CONSTANTS Parts, Bug,
           Letters, MaxPrefixLen, MaxLeaves, PolyDegs, UnknownNames,     \* names
           Coefs, Xs, MaxDeg,                                            \* horner
           Amps, Locs, Scales, MaxOffset,                                \* lorentz
-          UnitExps                                                      \* units
+          UnitExps,                                                     \* units
+          TCoefs, TMaxDeg                                               \* typed
 
-VARIABLES part, m, refused, hz, lz, uz
-vars == <<part, m, refused, hz, lz, uz>>
+VARIABLES part, m, refused, hz, lz, uz, tz, rz
+vars == <<part, m, refused, hz, lz, uz, tz, rz>>
 Idle == "idle"
 
 -----------------------------------------------------------------------------
@@ -50,7 +63,7 @@ Combine(leaf, onRight, p) ==
 NextN == /\ part = "names"
          /\ \/ \E p \in Prefixes : Reprefix(p)
             \/ \E leaf \in Leaves, side \in BOOLEAN, p \in Prefixes : Combine(leaf, side, p)
-         /\ UNCHANGED <<part, hz, lz, uz>>
+         /\ UNCHANGED <<part, hz, lz, uz, tz, rz>>
 
 IsN == part = "names"
 
@@ -97,7 +110,7 @@ HornerStep(c) ==
     /\ hz' = [low |-> <<c>> \o hz.low,
               acc |-> [x \in Xs |-> IF Bug = "no_shift" THEN hz.acc[x] + c ELSE hz.acc[x] * x + c]]
 
-NextH == part = "horner" /\ (\E c \in Coefs : HornerStep(c)) /\ UNCHANGED <<part, m, refused, lz, uz>>
+NextH == part = "horner" /\ (\E c \in Coefs : HornerStep(c)) /\ UNCHANGED <<part, m, refused, lz, uz, tz, rz>>
 
 HornerIsSum == part = "horner" => \A x \in Xs : hz.acc[x] = PolyValue(hz.low, x)
 HornerIsHornerForm == part = "horner" => \A x \in Xs : hz.acc[x] = HornerValue(hz.low, x)
@@ -106,7 +119,7 @@ HornerIsHornerForm == part = "horner" => \A x \in Xs : hz.acc[x] = HornerValue(h
 (* lorentz *)
 InitL == lz \in {[A |-> A, mu |-> mu, s |-> s, d |-> 0] : A \in Amps, mu \in Locs, s \in Scales}
 StepL == lz.d < MaxOffset /\ lz' = [lz EXCEPT !.d = lz.d + 1]
-NextL == part = "lorentz" /\ StepL /\ UNCHANGED <<part, m, refused, hz, uz>>
+NextL == part = "lorentz" /\ StepL /\ UNCHANGED <<part, m, refused, hz, uz, tz, rz>>
 
 LCoef(x) == LorentzCoef(lz.A, lz.mu, lz.s, x)
 ReportedFwhm == IF Bug = "fwhm_sigma" THEN lz.s ELSE LorentzFwhm(lz.s)
@@ -140,11 +153,67 @@ Perturb(i, u) ==
     /\ uz.changed = 0 /\ i \in 1..NParams(uz.kind) /\ u # uz.pu[i]
     /\ uz' = [uz EXCEPT !.pu[i] = u, !.changed = i]
 NextU == /\ part = "units" /\ (\E i \in 1..4, u \in Units : Perturb(i, u))
-         /\ UNCHANGED <<part, m, refused, hz, lz>>
+         /\ UNCHANGED <<part, m, refused, hz, lz, tz, rz>>
 
 UnitsImplied == (part = "units" /\ uz.changed = 0) => ResultUnit(uz.kind, uz.pu, uz.ux) = UOk(uz.uy)
 (* a parameter in another unit never goes unnoticed: refusal, or a different result unit    *)
 WrongUnitNoticed == (part = "units" /\ uz.changed # 0) => ResultUnit(uz.kind, uz.pu, uz.ux) # UOk(uz.uy)
+
+-----------------------------------------------------------------------------
+(* typed: sum a_i x^i with typed operands.  acc = value per x, accd = element type of the   *)
+(* accumulator, opd = element types of all operands met so far.                             *)
+InitT == tz \in {[xd |-> xd, low |-> <<c>>, acc |-> [x \in Xs |-> c], accd |-> cd, opd |-> {cd},
+                  refused |-> FALSE] : xd \in DTypes, c \in TCoefs, cd \in DTypes}
+
+TypedStep(c, cd) ==
+    /\ ~tz.refused /\ Len(tz.low) <= TMaxDeg
+    /\ LET fits == InPlaceFits(tz.accd, tz.xd) /\ InPlaceFits(tz.accd, cd)
+           seen == tz.opd \cup {tz.xd, cd}
+           go(d) == [tz EXCEPT !.low = <<c>> \o tz.low, !.acc = [x \in Xs |-> tz.acc[x] * x + c],
+                               !.accd = d, !.opd = seen]
+       IN \/ tz' = go(IF Bug = "narrow_accumulator" THEN tz.accd
+                      ELSE JoinType(JoinType(tz.accd, tz.xd), cd))
+          \* allowed: val *= x ; val += a_i on an integer buffer that would have to widen is refused
+          \/ /\ ~fits /\ Bug # "narrow_accumulator"
+             /\ tz' = [tz EXCEPT !.refused = TRUE, !.opd = seen]
+
+NextT == /\ part = "typed" /\ (\E c \in TCoefs, cd \in DTypes : TypedStep(c, cd))
+         /\ UNCHANGED <<part, m, refused, hz, lz, uz, rz>>
+
+(* a refusal is "unsupported element types": only with an integer-typed operand involved *)
+TypedRefusalNeedsIntegerOperand == (part = "typed" /\ tz.refused) => \E d \in tz.opd : IsIntType(d)
+TypedValueIsSum == (part = "typed" /\ ~tz.refused) => \A x \in Xs : tz.acc[x] = PolyValue(tz.low, x)
+(* a floating-point operand never ends up in an integer accumulator *)
+TypedNothingNarrowed ==
+    (part = "typed" /\ ~tz.refused) => ((\E d \in tz.opd : ~IsIntType(d)) => ~IsIntType(tz.accd))
+
+-----------------------------------------------------------------------------
+(* reuse: store = the values held by the caller's parameter objects.  An evaluation of      *)
+(* kind k appends what the caller observes: the exact Lorentzian coefficients at the        *)
+(* offsets 0..2 (the exact witness for every kind: all three peak models read amplitude,    *)
+(* loc and scale) or, for "fwhm", the reported full width of a Lorentzian / pseudo-Voigt.   *)
+RKinds == {"gauss", "lorentz", "pvoigt", "fwhm"}
+InitR == rz \in {[store |-> [A |-> A, mu |-> mu, s |-> s], orig |-> [A |-> A, mu |-> mu, s |-> s],
+                  seen |-> <<>>] : A \in Amps, mu \in Locs, s \in Scales}
+
+Observe(k, st) ==
+    IF k = "fwhm" THEN <<LorentzFwhm(st.s)>>
+    ELSE [d \in 1..3 |-> LorentzCoef(st.A, st.mu, st.s, st.mu + d - 1)]
+
+EvalStep(k) ==
+    /\ Len(rz.seen) < 3
+    /\ rz' = [rz EXCEPT !.seen = Append(rz.seen, <<k, Observe(k, rz.store)>>),
+                        !.store = IF Bug = "scale_in_place" /\ k = "pvoigt"
+                                  THEN [rz.store EXCEPT !.s = 2 * rz.store.s] ELSE rz.store]
+
+NextR == /\ part = "reuse" /\ (\E k \in RKinds : EvalStep(k))
+         /\ UNCHANGED <<part, m, refused, hz, lz, uz, tz>>
+
+ArgumentsUnchanged == part = "reuse" => rz.store = rz.orig
+(* the value of a model is a function of the values handed over, not of what was evaluated  *)
+(* before: equal kinds observe equal values, and every observation is that of the original  *)
+Repeatable ==
+    part = "reuse" => \A i \in 1..Len(rz.seen) : rz.seen[i][2] = Observe(rz.seen[i][1], rz.orig)
 
 -----------------------------------------------------------------------------
 Init == /\ part \in Parts
@@ -152,6 +221,8 @@ Init == /\ part \in Parts
         /\ IF part = "horner" THEN InitH ELSE hz = Idle
         /\ IF part = "lorentz" THEN InitL ELSE lz = Idle
         /\ IF part = "units" THEN InitU ELSE uz = Idle
-Next == NextN \/ NextH \/ NextL \/ NextU
+        /\ IF part = "typed" THEN InitT ELSE tz = Idle
+        /\ IF part = "reuse" THEN InitR ELSE rz = Idle
+Next == NextN \/ NextH \/ NextL \/ NextU \/ NextT \/ NextR
 Spec == Init /\ [][Next]_vars
 =============================================================================
